@@ -509,4 +509,11 @@ def rule_k(ctx: Ctx) -> None:
                 '`cdata.pop()` is on a list built by sorted(…, reverse=True).')
 
 
-RULES = [rule_a, rule_b, rule_c, rule_d, rule_e, rule_f, rule_g, rule_h, rule_i, rule_j, rule_k]
+def rule_l(ctx: Ctx) -> None:
+    """Strict encoding is sound for attributes too: the encoder has the decoder's test on prohibited uses (sibling agreement, C03.d body on raw_encode)."""
+    from .c03 import prohibited_report
+    prohibited_report(ctx, 'C05.l', 'raw_encode')
+    ctx.explain('C05.l: XsdAttributeGroup.raw_encode reports a prohibited attribute under the same path condition as raw_decode and lets the wildcard govern where it admits the name.')
+
+
+RULES = [rule_a, rule_b, rule_c, rule_d, rule_e, rule_f, rule_g, rule_h, rule_i, rule_j, rule_k, rule_l]
